@@ -16,6 +16,7 @@ import (
 	"runtime"
 	"strings"
 	"sync"
+	"sync/atomic"
 	"time"
 
 	"github.com/IrineSistiana/mosdns/v5/coremain"
@@ -27,6 +28,7 @@ import (
 	_ "github.com/IrineSistiana/mosdns/v5/plugin" // registers every built-in plugin
 	"github.com/IrineSistiana/mosdns/v5/plugin/executable/sequence"
 	"github.com/miekg/dns"
+	"github.com/quic-go/quic-go"
 
 	"verifharness/lib/poolsan"
 )
@@ -49,10 +51,32 @@ type recorder struct {
 	resp  *dns.Msg
 	burst bool
 	byKey map[string]*recEntry
+
+	// age phase: the time the plugin chain takes for a question (slow upstream)
+	delayOn atomic.Bool
+	delays  map[string]time.Duration
+}
+
+func (r *recorder) setDelay(key string, d time.Duration) {
+	r.mu.Lock()
+	if r.delays == nil {
+		r.delays = map[string]time.Duration{}
+	}
+	r.delays[key] = d
+	r.mu.Unlock()
+	r.delayOn.Store(true)
 }
 
 func (r *recorder) Exec(ctx context.Context, qCtx *query_context.Context) error {
 	key := qCtx.QQuestion().Name
+	if r.delayOn.Load() {
+		r.mu.Lock()
+		d := r.delays[key]
+		r.mu.Unlock()
+		if d > 0 {
+			time.Sleep(d)
+		}
+	}
 	err := r.inner.Exec(ctx, qCtx)
 	var snap *dns.Msg
 	if m := qCtx.R(); m != nil {
@@ -107,6 +131,7 @@ type handled struct {
 	nilPayload bool
 	n          int
 	calls      int
+	at         time.Time // when Handle returned (first call)
 }
 
 type hwrap struct {
@@ -125,7 +150,7 @@ func (w *hwrap) Handle(ctx context.Context, q *dns.Msg, meta server.QueryMeta, p
 		key = q.Question[0].Name
 	}
 	p := w.h.Handle(ctx, q, meta, pack)
-	ev := handled{nilPayload: p == nil}
+	ev := handled{nilPayload: p == nil, at: time.Now()}
 	if p != nil {
 		ev.n = len(*p)
 	}
@@ -365,6 +390,13 @@ type sockets struct {
 	h2c   *http.Client
 	h2url string
 
+	// DoT (ServeTCP behind a TLS listener) and DoQ servers, started by the age phase
+	dotl   net.Listener
+	doql   *quic.Listener
+	doqt   *quic.Transport
+	doqpc  net.PacketConn
+	doqAdr string
+
 	wd      time.Duration
 	expired int // delivery waits that expired (the transport is then abandoned)
 }
@@ -433,6 +465,7 @@ func (s *sockets) Close() {
 		s.hc.CloseIdleConnections()
 	}
 	s.closeH2()
+	s.closeAgeServers()
 }
 
 const deliverWait = 10 * time.Second     // loopback delivery of bytes the handler is known to have returned
